@@ -38,9 +38,17 @@ RoutesOK(ev) ==
     Has(ev, "routes") =>
         \A b \in Brokers : ToSet(ev.routes[b]) = { <<Home[e[2]], e[1]>> : e \in { x \in trie' : Home[x[2]] # b } }
 OutOK(ev) ==
-    /\ \A c \in Clients : SyncEq(ev.out[c].s, out'[c].s) /\ AsyncEq(ev.out[c].a, out'[c].a)
+    /\ \A c \in Clients : /\ SyncEq(ev.out[c].s, out'[c].s)
+                           /\ (out'[c].s = <<[t |-> "any"]>> \/ AsyncEq(ev.out[c].a, out'[c].a))    \* (a hostile requester's own inbox is free)
     /\ ev.tcount = Cardinality(trie')
     /\ RoutesOK(ev)
+
+(* concurrent phase (hammer.go): the event is one client's request served while other clients' requests were being
+   served.  What a client holds depends on its own requests only, so the state after all of them is the same in every
+   order; of the step's output only the requester's own replies (everything but deliveries) are compared. *)
+NotDelivery(p) == p.t \notin {"pub", "replay"}
+ConcOK(ev) == SyncEq(ev.acks, SelectSeq(out'[ev.c].s, NotDelivery))
+Fin(ev) == IF Has(ev, "conc") THEN ConcOK(ev) ELSE OutOK(ev)
 
 IsEvent(e) == l <= Len(Log) /\ Log[l].e = e /\ l' = l + 1
 Ev == Log[l]
@@ -49,13 +57,13 @@ ReqOf(ev) == [k |-> ev.k, w |-> ev.w, syn |-> ev.syn, me0 |-> ev.me0, ttl |-> ev
 TrReset   == IsEvent("reset") /\ conn' = [c \in Clients |-> "new"] /\ user' = [c \in Clients |-> ""]
                 /\ will' = [c \in Clients |-> NoWill] /\ held' = [c \in Clients |-> {}] /\ trie' = {}
                 /\ links' = [c \in Clients |-> {}] /\ store' = [b \in Brokers |-> <<>>] /\ out' = Quiet
-TrConnect == IsEvent("connect")  /\ Connect(Ev.c, Ev.u, Ev.will) /\ OutOK(Ev)
-TrSub     == IsEvent("sub")      /\ Subscribe(Ev.c, Ev.k, Ev.w, Ev.syn, Ev.last, Ev.win) /\ OutOK(Ev)
-TrUnsub   == IsEvent("unsub")    /\ Unsubscribe(Ev.c, Ev.k, Ev.w, Ev.syn) /\ OutOK(Ev)
-TrPub     == IsEvent("pub")      /\ Publish(Ev.c, ReqOf(Ev), Ev.via, Ev.retain, Ev.qos, Ev.p) /\ OutOK(Ev)
-TrLink    == IsEvent("link")     /\ Link(Ev.c, Ev.name, Ev.name # "toolong", ReqOf(Ev), Ev.sub, 1) /\ OutOK(Ev)
-TrPres    == IsEvent("presence") /\ Presence(Ev.c, Ev.k, Ev.w, Ev.syn, Ev.status, Ev.chg, 1) /\ OutOK(Ev)
-TrEnd     == IsEvent("end")      /\ End(Ev.c) /\ OutOK(Ev)
+TrConnect == IsEvent("connect")  /\ Connect(Ev.c, Ev.u, Ev.will) /\ Fin(Ev)
+TrSub     == IsEvent("sub")      /\ Subscribe(Ev.c, Ev.k, Ev.w, Ev.syn, Ev.last, Ev.win) /\ Fin(Ev)
+TrUnsub   == IsEvent("unsub")    /\ Unsubscribe(Ev.c, Ev.k, Ev.w, Ev.syn) /\ Fin(Ev)
+TrPub     == IsEvent("pub")      /\ Publish(Ev.c, ReqOf(Ev), Ev.via, Ev.retain, Ev.qos, Ev.p) /\ Fin(Ev)
+TrLink    == IsEvent("link")     /\ Link(Ev.c, Ev.name, Ev.name # "toolong", ReqOf(Ev), Ev.sub, 1) /\ Fin(Ev)
+TrPres    == IsEvent("presence") /\ Presence(Ev.c, Ev.k, Ev.w, Ev.syn, Ev.status, Ev.chg, 1) /\ Fin(Ev)
+TrEnd     == IsEvent("end")      /\ End(Ev.c) /\ Fin(Ev)
 (* C09: the broker is still there (the event exists), the hostile connection is closed or answered, everybody else is
    served exactly as the model says - in this step and in all later ones *)
 TrCluster == IsEvent("cluster")  /\ ~Ev.panic /\ ClusterHostile /\ OutOK(Ev)       \* a panic on the gossip goroutine is a process exit
